@@ -147,3 +147,46 @@ Example C11_agreeing_example :
   length (filter (fun o => match s_bind o with BLocal _ => true | BGlobal n => negb (Nat.eqb (length (global_writes (spec_ws [(a_lua, src_ok)]) n)) 0) end)
                   (bind_file (chunk_of src_ok))) = 27%nat.
 Proof. vm_compute. repeat split; reflexivity. Qed.
+
+(* ================================================================== positive theorems (agent traverse-bind)
+   rename = references (C11_rename_is_references), so the positive theorems of C06 hold verbatim for the edit set.
+   Guards as in Properties/C06.v (tb_shape, tr_clean, classA_ok, decl_layout_ok, decl_self_ok: all boolean). *)
+From LH Require Import Proofs.TraverseBindDefs Proofs.TraverseBind Proofs.TraverseBindRefs.
+
+(* renaming a LOCAL variable edits its declaration and exactly (as a set) the uses the reference binder binds to it *)
+Theorem C11_rename_local_partial : forall P w f name line col v,
+  tb_shape P = true -> tr_clean P name = true -> classA_ok (bind_file P) name = true ->
+  decl_layout_ok (bind_file P) name (v_loc v) = true ->
+  resolve_at w f (analyse P) name line col = TLocal v ->
+  exists l', references_at MRename w f (analyse P) name line col = Some ((f, v_loc v) :: l') /\
+             forall x, In x l' <-> In x (spec_uses P f (v_loc v)).
+Proof. exact (refs_local_classA MRename). Qed.
+Print Assumptions C11_rename_local_partial.
+
+Theorem C11_rename_local_same_var_partial : forall P w f name line col v o,
+  tb_shape P = true -> tr_clean P name = true -> classA_ok (bind_file P) name = true ->
+  decl_layout_ok (bind_file P) name (v_loc v) = true -> decl_self_ok (bind_file P) (v_loc v) = true ->
+  resolve_at w f (analyse P) name line col = TLocal v ->
+  s_bind o = BLocal (v_loc v) ->
+  exists l, references_at MRename w f (analyse P) name line col = Some l /\
+            forall x, In x l <-> In x (spec_refs [(f, bind_file P)] f o).
+Proof. exact (refs_local_same_var MRename). Qed.
+Print Assumptions C11_rename_local_same_var_partial.
+
+(* the statement aimed at (missing: the layout guards from Laid, and C05 for the target) *)
+Definition C11_rename_local_full : Prop := forall P w f name line col v o,
+  in_fragment P = true -> Laid P -> classA_ok (bind_file P) name = true ->
+  resolve_at w f (analyse P) name line col = TLocal v -> s_bind o = BLocal (v_loc v) ->
+  exists l, references_at MRename w f (analyse P) name line col = Some l /\
+            forall x, In x l <-> In x (spec_refs [(f, bind_file P)] f o).
+
+Example C11_local_guards_nonvacuous :
+  let P := chunk_of src_ok in
+  tb_shape P = true /\
+  forallb (fun s => tr_clean P (s_name s) && classA_ok (bind_file P) (s_name s)
+                    && match s_bind s with
+                       | BLocal d => decl_layout_ok (bind_file P) (s_name s) d && decl_self_ok (bind_file P) d
+                       | BGlobal _ => true
+                       end) (bind_file P) = true /\
+  length (filter (fun s => match s_bind s with BLocal _ => true | BGlobal _ => false end) (bind_file P)) = 25%nat.
+Proof. vm_compute. repeat split; reflexivity. Qed.
